@@ -121,7 +121,7 @@ Proof.
   - destruct po; [|discriminate]. inversion H; subst; clear H; cbn. split; [fin|auto].
   - destruct (po && negb pr); [|discriminate]. inversion H; subst; clear H; cbn. split; [fin|auto].
   - destruct po; [|discriminate]. destruct (rl && negb rc && co); inversion H; subst; clear H; cbn; (split; [fin|auto]).
-  - destruct (match k with RHandlerErr | RPanic => po | _ => true end); [|discriminate].
+  - destruct (match k with RErr | RTimeout => true | _ => po end); [|discriminate].
     inversion H; subst; clear H; cbn. split; [fin|auto].
   - inversion H; subst; clear H; cbn. split; [fin|auto].
 Qed.
